@@ -281,7 +281,8 @@ impl AsmLine {
                 let mut raw = 0x6000;
                 raw |= (*dest as u16) << 9;
                 raw |= (*src_reg as u16) << 6;
-                raw |= *offset as u16;
+                // Negative offsets are stored as 8-bit two's complement: only keep the 6-bit field
+                raw |= (*offset as u16) & 0b111111;
                 Ok(raw)
             }
             AirStmt::LoadEAddr { dest, src_label } => {
@@ -326,7 +327,8 @@ impl AsmLine {
                 let mut raw = 0x7000;
                 raw |= (*src_reg as u16) << 9;
                 raw |= (*dest_reg as u16) << 6;
-                raw |= *offset as u16;
+                // Negative offsets are stored as 8-bit two's complement: only keep the 6-bit field
+                raw |= (*offset as u16) & 0b111111;
                 Ok(raw)
             }
             // In order to be able to do push, pop, call and rets with the same instruction, a new format
